@@ -389,6 +389,58 @@ def edge_cover_paths(g, max_len=200, skip_self_loops=True):
     return paths
 
 
+def event_then_quiet_paths(g, is_event, quiet_prefs, max_quiet=60):
+    """One path per *event* edge: shortest prefix to its source, the edge itself, then a quiet completion that only follows
+    edges whose action name is in quiet_prefs (in that order of preference) - i.e. what the system does on its own when the
+    environment stays silent.  Unlike a greedy edge cover this observes the consequences of every event in isolation."""
+    from collections import deque
+    parent = {}
+    dq = deque()
+    for i in g.init:
+        parent[i] = None
+        dq.append(i)
+    while dq:
+        u = dq.popleft()
+        for lab, v in g.edges.get(u, ()):
+            if v not in parent:
+                parent[v] = (u, lab)
+                dq.append(v)
+
+    def prefix(u):
+        p = []
+        while parent[u] is not None:
+            pu, lab = parent[u]
+            p.append((lab, u))
+            u = pu
+        p.reverse()
+        return [u] + p
+    paths = []
+    for u in g.nodes:
+        if u not in parent:
+            continue
+        for lab, v in g.edges.get(u, ()):
+            if v == u or not is_event(lab):
+                continue
+            path = prefix(u) + [(lab, v)]
+            cur = v
+            for _ in range(max_quiet):
+                nxt = None
+                outs = g.edges.get(cur, ())
+                for pref in quiet_prefs:
+                    for l2, d2 in outs:
+                        if l2.split("(")[0] == pref and d2 != cur:
+                            nxt = (l2, d2)
+                            break
+                    if nxt:
+                        break
+                if not nxt:
+                    break
+                path.append(nxt)
+                cur = nxt[1]
+            paths.append(path)
+    return paths
+
+
 # --------------------------------------------------------------------------- simulate traces
 def load_sim_traces(dirpath, prefix="tr"):
     """Files written by `-simulate file=<dir>/tr,num=N`: one behaviour per file -> list of [(label, state), ...]"""
